@@ -46,7 +46,7 @@ Definition is_share_level (l : level) : bool := fold_match [36; 83; 72; 65; 82; 
 
 Definition is_share (f : bytes) : bool :=
   match split f with h :: _ => is_share_level h | [] => false end.
-Definition share_group (f : bytes) : level := nth 1 (split f) [].
+Definition share_group (f : bytes) : bytes := nth 1 (split f) [].
 Definition drop_levels (n : nat) (f : bytes) : bytes := join (skipn n (split f)).
 Definition eff_filter (f : bytes) : bytes := if is_share f then drop_levels 2 f else f.   (* $share/<g>/… *)
 
